@@ -597,6 +597,36 @@ def r8_rename_flags_reach_kernel(ctx):
     return out
 
 
+def r9_sink_failures_pass_through(ctx):
+    """'exactly the effect of the corresponding *at system call' includes its failures: when the one mutating call of an
+    operation fails, the operation fails -- no errno of it is tolerated or turned into success (EEXIST from symlinkat
+    because "the same link is already there" is still EEXIST for the kernel)."""
+    from ..cut import failure_edges
+    from ..cfg import Edge
+    F = ctx.facts
+    T = ctx.tracer
+    out = []
+    for fn in OPS:
+        b = F.body(fn)
+        cfg = cfg_of(b)
+        for n, t in enumerate(_sinks(b)):
+            key = "%s:%s:%d:failure" % (fn_key(b), t.callee.split("::")[-1], n)
+            fe = failure_edges(b, T, t)
+            if not fe or not fe[0]:
+                # the result is handed on whole (tail call / map_err chain / `?`): nothing looks at the error
+                out.append(holds("C14.R9", key, t.where(), "the call's result is propagated whole"))
+                continue
+            reach = cfg.precise_reach(fe[0])
+            ok_built = [x for x in reach for s_ in b.blocks[x].stmts
+                        if s_.kind == "assign" and s_.lhs.is_local and s_.rv["k"] == "agg" and s_.rv.get("variant") == "Ok"
+                        and (b.local_tys[s_.lhs.local] or "").startswith("std::result::Result<")]
+            if ok_built:
+                out.append(violated("C14.R9", key, t.where(), "a failure of %s can end in Ok: some errno of the system call is tolerated, so the operation reports success for something the *at call refused" % t.callee))
+            else:
+                out.append(holds("C14.R9", key, t.where(), "every failure of the call is a failure of the operation"))
+    return out
+
+
 RULES = [
     ("C14.R6", r6_resolve_parent, 3, False),
     ("C14.R1", r1_one_sink, 20, False),
@@ -606,4 +636,5 @@ RULES = [
     ("C14.R5", r5_flags, 4, False),
     ("C14.R7", r7_mode_fidelity, 7, False),
     ("C14.R8", r8_rename_flags_reach_kernel, 2, False),
+    ("C14.R9", r9_sink_failures_pass_through, 8, False),
 ]
